@@ -1,10 +1,115 @@
-import RgVerif.Model.Sx
+import RgVerif.Driver.C09
 namespace RgVerif.Driver.C10
-open RgVerif
+open RgVerif RgVerif.Matcher RgVerif.Replace RgVerif.Json RgVerif.Printer RgVerif.PrinterSpec RgVerif.Summary
+open RgVerif.Driver.PrinterProto
 
-/-- Request handler of property C10: `cmd` is the first token of the line, `args` the rest. -/
+def parseKind : Sx → Option Kind
+  | .atom "count" => some .count
+  | .atom "countmatches" => some .countMatches
+  | .atom "l" => some .pathWithMatch
+  | .atom "L" => some .pathWithoutMatch
+  | .atom "quiet" => some .quiet
+  | _ => none
+
+def parseSum : Sx → Option SumCfg
+  | .list (.atom "sum" :: fs) => do
+    let kind ← (Sx.field1 fs "kind") >>= parseKind
+    let stats ← (Sx.field1 fs "stats") >>= Sx.bool?
+    let path ← (Sx.field1 fs "path") >>= optOf Sx.bytes?
+    let max ← (Sx.field1 fs "max") >>= optOf Sx.nat?
+    let exzero ← (Sx.field1 fs "exzero") >>= Sx.bool?
+    let pterm ← (Sx.field1 fs "pterm") >>= optOf Sx.nat?
+    pure { kind, stats, path, maxMatches := max, excludeZero := exzero, pathTerminator := pterm }
+  | _ => none
+
+def parseMode : Sx → Option Mode
+  | .atom "standard" => some .standard
+  | .atom "count" => some .count
+  | .atom "countmatches" => some .countMatches
+  | .atom "l" => some .filesWithMatches
+  | .atom "L" => some .filesWithoutMatch
+  | .atom "json" => some .json
+  | _ => none
+
+def showKind : Kind → String
+  | .count => "count"
+  | .countMatches => "countmatches"
+  | .pathWithMatch => "l"
+  | .pathWithoutMatch => "L"
+  | .quiet => "quiet"
+
+/-- number of events the Summary sink consumes -/
+def sumConsumed (sc : SCfg) (c : SumCfg) (find : Oracle) : SumState → List Event → Nat → Nat
+  | _, [], n => n
+  | st, ev :: rest, n =>
+    let (st', cont) := sumEvent sc c find st ev
+    if cont then sumConsumed sc c find st' rest (n + 1) else n + 1
+
+def parseStats : Sx → Option Stats
+  | .list [.atom "stats", a, b, c, d, e, f] => do
+    pure { searches := (← a.nat?), searchesWithMatch := (← b.nat?), bytesSearched := (← c.nat?)
+         , bytesPrinted := (← d.nat?), matchedLines := (← e.nat?), matchCount := (← f.nat?) }
+  | _ => none
+
+def parseResult : Sx → Option FileResult
+  | .list [.atom "r", hm, .atom "~"] => do pure { hasMatch := (← hm.bool?), stats := none }
+  | .list [.atom "r", hm, st] => do pure { hasMatch := (← hm.bool?), stats := some (← parseStats st) }
+  | _ => none
+
 def handle (cmd : String) (args : List Sx) : String :=
+  if cmd.startsWith "c09." then RgVerif.Driver.C09.handle cmd args else
   match cmd, args with
+  | "c10.summary", [sc, sum, bufs, evs, bc] =>
+    match parseSC sc, parseSum sum, bc.nat? with
+    | some sc, some c, some bc =>
+      match parseBufs bufs with
+      | none => "bad-op"
+      | some bufs =>
+        match parseEvs sc bufs evs with
+        | none => "bad-op"
+        | some pevs =>
+          let find := oracleOf pevs
+          let evs := pevs.map (·.1)
+          let fin := sumSearch sc c find evs bc
+          let st0 : SumState := { stats := if c.hasStats then some {} else none }
+          let consumed := if c.maxMatches == some 0 then 0 else sumConsumed sc c find st0 evs 0
+          s!"out={toHex fin.out} mc={fin.matchCount} hasmatch={if sumHasMatch c fin then 1 else 0} " ++
+          s!"consumed={consumed} stats={showOptStats fin.stats}"
+    | _, _, _ => "bad-op"
+  | "c10.counts", [sc, bufs, evs] =>
+    match parseSC sc with
+    | none => "bad-op"
+    | some sc =>
+      match parseBufs bufs with
+      | none => "bad-op"
+      | some bufs =>
+        match parseEvs sc bufs evs with
+        | none => "bad-op"
+        | some pevs =>
+          let find := oracleOf pevs
+          let evs := pevs.map (·.1)
+          let per := evs.filter Event.isMatched |>.map fun ev => (eventMatches sc find ev).length
+          s!"matched={matchedCount evs} submatches={subMatchTotal sc find evs} per={natsToStr per}"
+  | "c10.normalize", [mode, inv, only, quiet, stats] =>
+    match parseMode mode, inv.bool?, only.bool?, quiet.bool?, stats.bool? with
+    | some mode, some inv, some only, some quiet, some stats =>
+      let m := normalizeMode mode inv only
+      let pr := match printerFor quiet m with
+        | none => "std"
+        | some none => "json"
+        | some (some k) => "sum:" ++ showKind k
+      s!"printer={pr} stats={if statsOn stats m then 1 else 0} quit_after_match={if !(statsOn stats m) && quiet then 1 else 0}"
+    | _, _, _, _, _ => "bad-op"
+  | "c10.exit", [m, q, e] =>
+    match m.bool?, q.bool?, e.bool? with
+    | some m, some q, some e => toString (exitCode m q e)
+    | _, _, _ => "bad-op"
+  | "c10.aggregate", (q :: so :: rs) =>
+    match q.bool?, so.bool?, rs.mapM parseResult with
+    | some q, some so, some rs =>
+      let (m, st) := searchAll q so rs
+      s!"matched={if m then 1 else 0} stats={showOptStats st}"
+    | _, _, _ => "bad-op"
   | _, _ => "bad-op"
 
 end RgVerif.Driver.C10
